@@ -18,7 +18,7 @@ RULE = ('cases: histories (6..40 steps) of locally opened ids (in order, skippin
         'rejected id; distinct by trace')
 ASSUMPTIONS = ['K03: streams hit by a state-machine refusal are not used again']
 TIERS = {'quick': {'cases': 4000, 'size': 300},
-         'thorough': {'cases': 200000, 'size': 400}}
+         'thorough': {'cases': 1200000, 'size': 400}}
 TOP = 2**31 - 1
 
 
